@@ -39,7 +39,7 @@ func Collect(maxLen, perType int) []Instance {
 		}
 		name := rt.Elem().Name()
 		h := vh.Hash64(name, d)
-		if seen[h] || perType > 0 && count[name] >= perType {
+		if seen[h] {
 			return
 		}
 		seen[h] = true
@@ -100,9 +100,6 @@ func Collect(maxLen, perType int) []Instance {
 	sopts := gopacket.SerializeOptions{FixLengths: true, ComputeChecksums: true}
 	for _, t := range registry.Serializable() {
 		for seed := uint64(1); seed <= 6; seed++ {
-			if count[t.Name] >= 6 {
-				break
-			}
 			v := t.New()
 			sl, ok := v.(gopacket.SerializableLayer)
 			l, ok2 := v.(gopacket.Layer)
@@ -152,9 +149,32 @@ func Collect(maxLen, perType int) []Instance {
 		if out[i].Type != out[j].Type {
 			return out[i].Type < out[j].Type
 		}
+		if len(out[i].Data) != len(out[j].Data) {
+			return len(out[i].Data) > len(out[j].Data) // long (option-rich) instances first
+		}
 		return string(out[i].Data) < string(out[j].Data)
 	})
-	return out
+	if perType <= 0 {
+		return out
+	}
+	// at most perType per type: the longest one, then evenly spread over the length-sorted rest
+	var capped []Instance
+	for i := 0; i < len(out); {
+		j := i
+		for j < len(out) && out[j].Type == out[i].Type {
+			j++
+		}
+		n := j - i
+		if n <= perType {
+			capped = append(capped, out[i:j]...)
+		} else {
+			for k := 0; k < perType; k++ {
+				capped = append(capped, out[i+k*n/perType])
+			}
+		}
+		i = j
+	}
+	return capped
 }
 
 // Variants calls fn with every systematic variant of data (fn must not keep the slice):
